@@ -12,6 +12,7 @@ pub struct Context {
     size: Vec<usize>,
     position: Vec<usize>,
     namespaces: Vec<(Option<String>, String)>,
+    root: Option<XmlNode>,
 }
 
 impl Context {
@@ -19,6 +20,16 @@ impl Context {
     #[cfg(xml_rs_verif)]
     pub fn verif_depths(&self) -> (usize, usize) {
         (self.size.len(), self.position.len())
+    }
+
+    /// The root node of the document being queried: the node selected by `/` from context
+    /// nodes that do not know their document (namespace nodes).
+    pub fn root(&self) -> Option<XmlNode> {
+        self.root.clone()
+    }
+
+    pub fn set_root(&mut self, root: Option<XmlNode>) {
+        self.root = root;
     }
 
     pub fn get_position(&self) -> usize {
